@@ -90,6 +90,8 @@ ALIASES = {
     "collections.abc.Sequence": "Sequence",
     "collections.abc.Mapping": "Mapping",
     "collections.abc.Set": "Set",
+    "typing.Protocol": "Protocol",
+    "enum.Enum": "Enum",
 }
 
 CONSTANTS = {"logging.DEBUG": 10, "logging.INFO": 20, "logging.WARNING": 30, "logging.ERROR": 40,
@@ -361,11 +363,22 @@ def tuple_prepend(it, extra: list, star) -> z3.ExprRef:
     return concat_literal(it, [("item", x) for x in extra] + [("star", star)], "tuple")
 
 
-def list_of(it, v) -> z3.ExprRef:
+index_exc = z3.Function("index_exc", Val, Val, Val)          # the IndexError raised by obj[idx]
+any_seq_arr = z3.Function("any_seq_arr", Val, V.ArrIV)     # items of an arbitrary Sequence value
+any_seq_len = z3.Function("any_seq_len", Val, I)
+
+
+def generic_seq_view(it, v):
+    """(arr, lo, hi) of any value that is known (by the caller) to be a sequence."""
     sv = seq_view(it, v)
-    if sv is None:
-        raise Unsupported("list(...) of a non-sequence value")
-    arr, lo, hi = sv
+    if sv is not None:
+        return sv
+    it.st.assume(any_seq_len(v) >= 0)
+    return any_seq_arr(v), z3.IntVal(0), any_seq_len(v)
+
+
+def list_of(it, v) -> z3.ExprRef:
+    arr, lo, hi = generic_seq_view(it, v)
     return new_seq_from(it, "list", arr, lo, hi)
 
 
@@ -538,7 +551,11 @@ def getitem(it, obj, idx, node=None) -> z3.ExprRef:
         i = n[0]
         ln = hi - lo
         eff = st.simp(z3.If(i < 0, ln + i, i))
-        if not st.decide(z3.And(eff >= 0, eff < ln), f"index@{it.pos(node)}:inrange"):
+        plog = st.ghost.get("$pure_log")
+        if st.no_fork and plog is not None:
+            # inside a summarised expression: indexing is a partial step (IndexError when out of range)
+            plog.append((z3.And(eff >= 0, eff < ln), index_exc(obj, idx)))
+        elif not st.decide(z3.And(eff >= 0, eff < ln), f"index@{it.pos(node)}:inrange"):
             raise PyRaise(it.new_exc("IndexError"), "index out of range")
         st.instantiate_at(st.simp(lo + eff))
         return st.simp(z3.Select(arr, lo + eff))
@@ -724,7 +741,9 @@ def _callable(it, lv, ca, node):
         return it.mk_bool(True)
     if k in ("none", "int", "float", "bool", "str", "tuple"):
         return it.mk_bool(False)
-    return V.VBool(callable_(v))
+    return V.VBool(z3.If(z3.Or(V.is_fun(v), V.is_cls(v)), True,
+                         z3.If(z3.Or(V.is_none(v), V.is_int(v), V.is_float(v), V.is_bool(v), V.is_str(v), V.is_tup(v)),
+                               False, callable_(v))))
 
 
 @spec("builtins.tuple")
@@ -746,6 +765,8 @@ def _getattr(it, lv, ca, node):
     obj, name = ca.pos[0], ca.pos[1]
     nm = _literal_str(it, name)
     if nm is None:
+        if len(ca.pos) > 2:
+            return it.engine.getattr_default(it, obj, name, ca.pos[2], node)     # symbolic attribute name
         raise Unsupported("getattr with a symbolic name")
     if len(ca.pos) > 2:
         return it.engine.getattr_default(it, obj, nm, ca.pos[2], node)
@@ -1699,3 +1720,145 @@ def _dict_pop(it, lv, ca, node):
     if len(ca.pos) > 1:
         return ca.pos[1]
     raise PyRaise(it.new_exc("KeyError"), "pop of a missing key")
+
+
+# ------------------------------------------------------------------------------------------------
+# pairs views: dict.items(), enumerate(...)
+# ------------------------------------------------------------------------------------------------
+def _pairs_view(it, A, Bf, lo, hi, first_is_int=False):
+    i = z3.Int("i!pv")
+    arr = z3.Lambda([i], V.tup(A(i), Bf(i)))
+    o = new_seq_from(it, "list", arr, lo, hi)
+    it.st.ghost.setdefault("$pairs", {})[z3.simplify(arr).sexpr()] = (A, Bf, first_is_int)
+    return o
+
+
+def pairs_lookup(it, arr):
+    return it.st.ghost.get("$pairs", {}).get(z3.simplify(arr).sexpr())
+
+
+@spec("dict.items", "OrderedDict.items", "mappingproxy.items")
+def _dict_items(it, lv, ca, node):
+    p = dict_parts(it, lv.bound)
+    A = lambda i: z3.Select(p["keys"], i)
+    Bf = lambda i: z3.Select(p["val"], z3.Select(p["keys"], i))
+    return _pairs_view(it, A, Bf, p["lo"], p["hi"])
+
+
+@spec("builtins.enumerate")
+def _enumerate(it, lv, ca, node):
+    sv = seq_view(it, ca.pos[0])
+    if sv is None:
+        raise Unsupported("enumerate over a non-sequence")
+    arr, lo, hi = sv
+    A = lambda i: V.VInt(i - lo)
+    Bf = lambda i: z3.Select(arr, i)
+    return _pairs_view(it, A, Bf, lo, hi, first_is_int=True)
+
+
+@spec("new:mappingproxy")
+def _new_mappingproxy(it, lv, ca, node):
+    """types.MappingProxyType(d): a read-only view of the dict d."""
+    st = it.st
+    d = ca.pos[0]
+    if _cname(it, d) not in ("dict", "OrderedDict"):
+        raise Unsupported("MappingProxyType over a non-dict")
+    o = st.alloc("mappingproxy")
+    p = dict_parts(it, d)
+    for f, key in (("$dhas", "has"), ("$dval", "val"), ("$dpos", "pos"), ("$arr", "keys"), ("$lo", "lo"), ("$hi", "hi")):
+        st.put(o, f, p[key])
+    st.put(o, "$mp_dict", d)
+    return o
+
+
+@spec("new:frozenset")
+def _new_frozenset(it, lv, ca, node):
+    if not ca.pos:
+        return new_seq(it, "frozenset", [])
+    sv = seq_view(it, ca.pos[0])
+    if sv is None:
+        raise Unsupported("frozenset of unknown iterable")
+    return new_seq_from(it, "frozenset", *sv)
+
+
+@spec("builtins.hasattr")
+def _hasattr(it, lv, ca, node):
+    c = it.st.contract
+    if c is not None and hasattr(c, "hasattr_"):
+        r = c.hasattr_(it, ca.pos[0], ca.pos[1], node)
+        if r is not None:
+            return r
+    raise Unsupported("hasattr on an unmodelled value")
+
+
+@spec("new:str")
+def _new_str(it, lv, ca, node):
+    return _str(it, lv, ca, node)
+
+
+@spec("new:tuple")
+def _new_tuple(it, lv, ca, node):
+    return _tuple(it, lv, ca, node)
+
+
+# ------------------------------------------------------------------------------------------------
+# instance attribute storage by *symbolic* name (object.__setattr__ / getattr / vars on State)
+#   $sattr_has[addr]: Val -> Bool, $sattr_val[addr]: Val -> Val
+# ------------------------------------------------------------------------------------------------
+FIELD_SORTS["$sattr_has"] = z3.ArraySort(I, V.ArrVB)
+FIELD_SORTS["$sattr_val"] = z3.ArraySort(I, V.ArrVV)
+
+
+@spec("object::__setattr__")
+def _object_setattr(it, lv, ca, node):
+    st = it.st
+    obj, name, val = ca.pos
+    st.put(obj, "$sattr_has", z3.Store(st.get(obj, "$sattr_has"), name, True))
+    st.put(obj, "$sattr_val", z3.Store(st.get(obj, "$sattr_val"), name, val))
+    return V.VNone
+
+
+dc = z3.Function("deepcopy_of", Val, Val)
+contains_proxy = z3.Function("contains_mappingproxy", Val, B)
+dc_exc = z3.Function("deepcopy_exc", Val, Val)
+
+
+def deepcopy_ok(it, v):
+    """T-COPY: copy.deepcopy fails (TypeError: cannot pickle 'mappingproxy' object) exactly on values
+    that are or contain a types.MappingProxyType; otherwise it returns an equal value."""
+    return z3.Not(z3.Or(z3.And(V.is_ref(v), V.class_of(V.addr(v)) == it.ct.id("mappingproxy")), contains_proxy(v)))
+
+
+@spec("copy.deepcopy")
+def _deepcopy(it, lv, ca, node):
+    used("T-COPY:deepcopy")
+    v = ca.pos[0]
+    return it.call_pure(deepcopy_ok(it, v), dc(v), dc_exc(v), "deepcopy")
+
+
+@spec("builtins.vars")
+def _vars(it, lv, ca, node):
+    """vars(obj) of a State instance: a dict view of its instance attributes."""
+    st = it.st
+    obj = ca.pos[0]
+    d = st.alloc("dict")
+    st.put(d, "$dhas", st.get(obj, "$sattr_has"))
+    st.put(d, "$dval", st.get(obj, "$sattr_val"))
+    keys = st.fresh("vars_keys", V.ArrIV)
+    pos = st.fresh("vars_pos", V.ArrVI)
+    n = st.fresh("vars_n", I)
+    st.assume(n >= 0)
+    st.put(d, "$arr", keys)
+    st.put(d, "$dpos", pos)
+    st.put(d, "$lo", z3.IntVal(0))
+    st.put(d, "$hi", n)
+    has = st.get(obj, "$sattr_has")
+    from .state import QFact
+    st.assume(QFact(lambda i: z3.Implies(z3.And(0 <= i, i < n), z3.And(z3.Select(has, z3.Select(keys, i)),
+                                                                     z3.Select(pos, z3.Select(keys, i)) == i)),
+                    pattern=lambda i: z3.Select(keys, i), name="vk"))
+    st.assume(QFact(lambda k: z3.Implies(z3.Select(has, k), z3.And(0 <= z3.Select(pos, k), z3.Select(pos, k) < n,
+                                                                  z3.Select(keys, z3.Select(pos, k)) == k)),
+                    sort=Val, pattern=lambda k: z3.Select(has, k), name="vk2"))
+    st.ghost.setdefault("$vars_of", {})[str(st.simp(V.addr(d)))] = obj
+    return d
